@@ -18,38 +18,40 @@ type Pos struct {
 	D, V, A int // indexes into Dels, Vals, Denoms
 }
 
-func (p Pos) name() string { return string(rune('0'+p.D)) + string(rune('0'+p.V)) + string(rune('0'+p.A)) }
+func (p Pos) name() string {
+	return string(rune('0'+p.D)) + string(rune('0'+p.V)) + string(rune('0'+p.A))
+}
 
 // Opts selects what the representation invariant leaves symbolic.
 type Opts struct {
-	NVals       int    // validators registered in staking (default 2)
-	NDenoms     int    // alliance assets created (default 1)
-	MaxTok      string // upper bound of token quantities (default 10^30)
-	Started     int    // 0: rewards started (start time <= block time); 1: not started; 2: symbolic
-	TakeRate    bool   // symbolic take rate in [0,1) (else 0)
-	Rewards     bool   // module has a staking delegation on every validator, pending rewards and reward indices are symbolic
-	UnitPrice   bool   // validator-share and delegator-share prices fixed to 1 (keeps structural queries linear)
-	Unbonding   int64  // staking unbonding time in ns (0 => symbolic 1s..10y)
-	BlockTime   *time.Time
-	ValPriceOne bool // validator-share price 1 (TotalValidatorShares == TotalTokens) while delegator-share prices stay symbolic (halves the degree of value terms)
-	Hints       bool // suggest a simple concrete regime (round share amounts, unit prices, small rewards) to the search for a concrete counterexample
-	TinyTDS     bool // allow a validator's total delegator shares to be below one share (region of a known C05/C20 finding: shares are then priced 1:1)
+	NVals         int    // validators registered in staking (default 2)
+	NDenoms       int    // alliance assets created (default 1)
+	MaxTok        string // upper bound of token quantities (default 10^30)
+	Started       int    // 0: rewards started (start time <= block time); 1: not started; 2: symbolic
+	TakeRate      bool   // symbolic take rate in [0,1) (else 0)
+	Rewards       bool   // module has a staking delegation on every validator, pending rewards and reward indices are symbolic
+	UnitPrice     bool   // validator-share and delegator-share prices fixed to 1 (keeps structural queries linear)
+	Unbonding     int64  // staking unbonding time in ns (0 => symbolic 1s..10y)
+	BlockTime     *time.Time
+	ValPriceOne   bool // validator-share price 1 (TotalValidatorShares == TotalTokens) while delegator-share prices stay symbolic (halves the degree of value terms)
+	Hints         bool // suggest a simple concrete regime (round share amounts, unit prices, small rewards) to the search for a concrete counterexample
+	TinyTDS       bool // allow a validator's total delegator shares to be below one share (region of a known C05/C20 finding: shares are then priced 1:1)
 	StrictRewards bool // pending distribution rewards are strictly positive and every position has a strictly positive index gap (fewer zero/non-zero forks)
-	BigPool     bool // the rewards pool holds more than any entitlement (keeps pool-shortage forks out of harnesses that are not about solvency)
-	History2    bool // reward histories exist for two reward denoms, in first-seen (non-alphabetical) order: stake, then aaaaa
-	TwoRewards  bool // pending distribution rewards come in two denoms and the validators have no reward history yet
-	DustVal     bool // validator 2 holds a remainder of validator shares of denom 0 but no delegation (it was fully exited)
-	Params      bool // symbolic take-rate clock (interval, last claim time); else default params, clock = block time
+	BigPool       bool // the rewards pool holds more than any entitlement (keeps pool-shortage forks out of harnesses that are not about solvency)
+	History2      bool // reward histories exist for two reward denoms, in first-seen (non-alphabetical) order: stake, then aaaaa
+	TwoRewards    bool // pending distribution rewards come in two denoms and the validators have no reward history yet
+	DustVal       bool // validator 2 holds a remainder of validator shares of denom 0 but no delegation (it was fully exited)
+	Params        bool // symbolic take-rate clock (interval, last claim time); else default params, clock = block time
 }
 
 // State is an arbitrary state satisfying the representation invariant RI (DESIGN.md §4):
 // share sums hold by construction (totals are defined as the sums of their parts), all
 // quantities are non-negative, custody covers staked totals.
 type State struct {
-	E      *env.Env
-	Pos    []Pos
-	T0     time.Time
-	Shares map[string]math.LegacyDec // delegation shares by Pos.name()
+	E       *env.Env
+	Pos     []Pos
+	T0      time.Time
+	Shares  map[string]math.LegacyDec // delegation shares by Pos.name()
 	Surplus []math.Int
 	Params  types.Params
 }
